@@ -69,7 +69,7 @@ func Respell(r *vh.Rand, env *Env, root *J) (*J, []string) {
 		if j.Ty.Class == "enum" && j.K == "str" && r.Chance(60) {
 			s := env.Lookup(j.Ty.Ref)
 			for _, o := range s.Options {
-				if j.S == o.Name {
+				if j.S == o.Name && !s.PrefixedIsShort(o.Name) {
 					j.S = s.Prefix + o.Name
 					kinds = append(kinds, "enum with prefix")
 					break
